@@ -489,6 +489,26 @@ static void float_zero_keys(vh_rng* r) {
   }
   vh_count("float_tables_with_both_zeros_as_keys");
   del(t);
+  /* and the other way round: doubles that differ, however little, are different keys -- also when they share a home
+     slot (bit patterns 5 apart collide in the 5-slot table, 55 apart in the 5- and 11-slot tables) */
+  {
+    var u = new(Table, Float, Int);
+    double base = vh_chance(r, 50) ? 0.1 : (double)vh_range(r, 1, 1000) / 7.0;
+    uint64_t bits; memcpy(&bits, &base, 8);
+    int nk = 3 + (int)vh_below(r, 4); uint64_t stride = vh_chance(r, 50) ? 5 : 55;
+    double ks[8];
+    for (int i = 0; i < nk; i++) { uint64_t b = bits + stride * (uint64_t)i; memcpy(&ks[i], &b, 8); set(u, $F(ks[i]), $I(100 + i)); }
+    vh_evals(3);
+    int ok = len(u) == (size_t)nk;
+    for (int i = 0; ok && i < nk; i++) { if (!mem(u, $F(ks[i])) || c_int(get(u, $F(ks[i]))) != 100 + i) { ok = 0; } }
+    if (!ok) { vh_violation("C02:float-neighbours:distinct-keys-merged", "%d Float keys %" PRIu64 " ulp apart around %.17g: len %zu, or a key finds another key's value", nk, stride, base, len(u)); }
+    else {
+      var exc = NULL; VH_CATCH(rem(u, $F(ks[0])), exc);
+      if (exc || len(u) != (size_t)nk - 1 || mem(u, $F(ks[0])) || !mem(u, $F(ks[1]))) { vh_violation("C02:float-neighbours:distinct-keys-merged", "rem of the first of %d neighbouring Float keys removed something else", nk); }
+    }
+    vh_count("float_tables_with_neighbouring_keys");
+    del(u);
+  }
 }
 
 /* ---------- a stored value used as a key ----------
